@@ -49,7 +49,9 @@ def angle_spec(rng, kind=None):
 
 
 def center_xy(rng, L, kind=None):
-    kind = kind or rng.choice(['zero', 'near', 'near', 'near', 'far', 'neg', 'halfint', 'int'])
+    kind = kind or rng.choice(['zero', 'near', 'near', 'near', 'far', 'neg', 'halfint', 'int', 'veryfar'])
+    if kind == 'veryfar':          # shape tiny compared with its distance from the origin (relative tolerances bite here)
+        return rng.choice([-1, 1]) * 3e6 * L * rng.uniform(0.5, 2), rng.choice([-1, 1]) * 3e6 * L * rng.uniform(0.5, 2)
     if kind == 'zero':
         return 0.0, 0.0
     if kind == 'near':
